@@ -7,6 +7,7 @@ CONSTANTS
   MaxBlock = 2
   Kinds <- AllKinds
   Tiny = FALSE
+  Ops = FALSE
   Rich = FALSE
 INVARIANT DesignFaithful
 INVARIANT DeviationsExplain
